@@ -27,6 +27,11 @@ type Case struct {
 	RBuf    int    `json:"rbuf,omitempty"` // replay read buffer; 0 = the library default (4 MiB per file)
 	Steps   []Step `json:"steps"`
 	Crash   bool   `json:"crash,omitempty"` // crash leg: run under strace in a child and judge every boundary
+	// replay of the crash leg
+	TraceFile string `json:"trace_file,omitempty"`
+	TraceRoot string `json:"trace_root,omitempty"`
+	TraceAck  string `json:"trace_ack,omitempty"`
+	Only      int    `json:"only,omitempty"`
 }
 
 func GenInProc() *rapid.Generator[Case] {
@@ -35,6 +40,7 @@ func GenInProc() *rapid.Generator[Case] {
 		c.MaxSize = rapid.SampledFrom([]uint64{1, 16, 64, 1024, 1 << 20, 0}).Draw(t, "max")
 		c.WBuf = rapid.SampledFrom([]int{8, 64, 64, 4096, 4 << 20}).Draw(t, "wbuf")
 		c.Comp = rapid.IntRange(0, 3).Draw(t, "comp")
+		c.Crash = rapid.IntRange(0, 24).Draw(t, "crashleg") == 0
 		c.RBuf = rapid.SampledFrom([]int{16, 64, 4096, 4096, 0}).Draw(t, "rbuf")
 		n := rapid.IntRange(0, 30).Draw(t, "n")
 		bg := gen.BlobGen(true, true, []int{8, 16, 64}, 200)
@@ -43,7 +49,7 @@ func GenInProc() *rapid.Generator[Case] {
 			switch {
 			case k == 0:
 				c.Steps = append(c.Steps, Step{Op: "rotate"})
-			case k == 1:
+			case k == 1 && !c.Crash:
 				c.Steps = append(c.Steps, Step{Op: "replay"})
 			case k <= 4:
 				c.Steps = append(c.Steps, Step{Op: "sync", Rec: bg.Draw(t, "rec")})
@@ -209,4 +215,17 @@ func bucket(n int) string {
 	default:
 		return ">=5"
 	}
+}
+
+func Shrink(c Case) []Case {
+	if c.TraceFile != "" {
+		return nil
+	}
+	var out []Case
+	for _, st := range h.ShrinkList(c.Steps) {
+		cp := c
+		cp.Steps = st
+		out = append(out, cp)
+	}
+	return out
 }
